@@ -16,8 +16,8 @@ def build(profile='dev', features=()):
         shutil.copy(os.path.join(VERIF, 'replay', 'driver', 'src', 'main.rs'), os.path.join(scratch, 'src', 'main.rs'))
         with open(os.path.join(scratch, 'Cargo.toml'), 'w') as f:
             f.write('[package]\nname = "fpdec_replay_driver"\nversion = "0.0.0"\nedition = "2021"\n\n'
-                    '[dependencies]\nfpdec = { path = "%s" }\nrkyv = { version = "0.7", optional = true, features = ["validation", "strict"] }\nserde_json = { version = "1.0", optional = true }\n\n'
-                    '[features]\nrkyv = ["fpdec/rkyv", "dep:rkyv"]\nserde = ["fpdec/serde-as-str", "dep:serde_json"]\n\n[workspace]\n\n'
+                    '[dependencies]\nfpdec = { path = "%s" }\nrkyv = { version = "0.7", optional = true, features = ["validation", "strict"] }\nserde_json = { version = "1.0", optional = true }\nnum-traits = { version = "0.2", optional = true }\n\n'
+                    '[features]\nrkyv = ["fpdec/rkyv", "dep:rkyv"]\nserde = ["fpdec/serde-as-str", "dep:serde_json"]\nnumtraits = ["fpdec/num-traits", "dep:num-traits"]\n\n[workspace]\n\n'
                     '[profile.release]\noverflow-checks = false\ndebug-assertions = false\nopt-level = 3\n' % REPO)
         lock = os.path.join(REPO, 'Cargo.lock')
         import hashlib
